@@ -9,7 +9,7 @@ import json, os, subprocess, sys, shutil, tempfile, time
 
 VERIF = os.path.dirname(os.path.dirname(os.path.abspath(__file__)))
 REPO = os.environ.get("VERIF_REPO", "/repo")
-env = dict(os.environ, GOFLAGS="-mod=mod", GOPROXY="off", GOSUMDB="off", GOTOOLCHAIN="local")
+env = dict(os.environ, GOFLAGS="-mod=mod", GOPROXY="off", GOSUMDB="off", GOTOOLCHAIN="local", GOVC_NO_REPLAY=os.environ.get("GOVC_NO_REPLAY", "1"))
 
 def sh(*a, **kw):
     return subprocess.run(a, capture_output=True, text=True, env=env, **kw)
